@@ -13,6 +13,7 @@ import (
 	"strings"
 	"time"
 	"unicode"
+	"unicode/utf8"
 
 	"github.com/osteele/liquid/values"
 	"github.com/osteele/tuesday"
@@ -167,7 +168,9 @@ func AddStandardFilters(fd FilterDictionary) { //nolint: gocyclo
 		if len(s) == 0 {
 			return s
 		}
-		return strings.ToUpper(s[:1]) + s[1:]
+		// the first character, not the first byte
+		r, size := utf8.DecodeRuneInString(s)
+		return string(unicode.ToUpper(r)) + s[size:]
 	})
 	fd.AddFilter("downcase", func(s, suffix string) string {
 		return strings.ToLower(s)
